@@ -39,6 +39,7 @@ pub(crate) mod verif_timer {
         let mut f0 = ManuallyDrop::new(LocalTimer::deadline(&svc, dl[0]));
         let mut f1 = ManuallyDrop::new(LocalTimer::deadline(&svc, dl[1]));
         let mut f2 = ManuallyDrop::new(LocalTimer::deadline(&svc, dl[2]));
+        if (p & P18) != 0 { arm_alloc(); }
         let mut now: u64 = 0;
         let mut alive = [true; K];
         let mut reg = [false; K]; // registered, not yet expired
@@ -156,6 +157,7 @@ pub(crate) mod verif_timer {
                     i += 1;
                 }
             }
+            oracle!(p, P18, alloc_events() == 0, "C18 timer: an operation allocated or freed heap memory");
             // next_expiration() = smallest deadline among registered, not yet expired, not dropped futures
             let mut mn: Option<u64> = None;
             let mut i = 0;
@@ -235,7 +237,7 @@ pub(crate) mod verif_timer {
             }
         }
         /// class: 0 poll, 1 drop, 2 check_expirations (+ next_expiration), 3 any
-        pub fn run<M: RawMutex>(class: u8, p: u32) {
+        pub fn run<M: RawMutex>(class: u8, kmax: usize, p: u32) {
             let now: u64 = kani::any();
             CLOCK.0.store(now, Ordering::Relaxed);
             let svc = GenericTimerService::<M>::new(&CLOCK);
@@ -249,6 +251,7 @@ pub(crate) mod verif_timer {
             let mut f2 = ManuallyDrop::new(LocalTimer::deadline(&svc, dl[2]));
             let mut f3 = ManuallyDrop::new(LocalTimer::deadline(&svc, dl[3]));
             let st = [any_st(), any_st(), any_st(), any_st()];
+            if kmax < 4 { kani::assume(st[3] == 3); } // partition: only kmax futures take part
             let lw: [bool; 4] = [kani::any(), kani::any(), kani::any(), kani::any()];
             macro_rules! setup {
                 ($f:ident, $i:expr, $ca:expr, $cb:expr) => {
@@ -274,7 +277,7 @@ pub(crate) mod verif_timer {
             let mut polled = 4usize;
             let mut polled_w = false;
             let t: usize = kani::any();
-            kani::assume(t < 4);
+            kani::assume(t < kmax);
             let cls: u8 = if class == 3 { kani::any() } else { class };
             kani::assume(cls < 3);
             let cells_a = [&c0a, &c1a, &c2a, &c3a];
@@ -366,6 +369,26 @@ pub(crate) mod verif_timer {
     #[cfg(kani)]
     mod proofs {
         use super::*;
+        #[kani::proof]
+        #[kani::unwind(3)]
+        fn repoll_panics() {
+            CLOCK.0.store(0, Ordering::Relaxed);
+            let svc = GenericTimerService::<NoopLock>::new(&CLOCK);
+            repoll_after_ready(LocalTimer::deadline(&svc, 0));
+        }
+        #[kani::proof]
+        #[kani::unwind(3)]
+        fn repoll_panics_send_facade() {
+            CLOCK.0.store(0, Ordering::Relaxed);
+            let svc = GenericTimerService::<CheckLock>::new(&CLOCK);
+            repoll_after_ready(Timer::deadline(&svc, 0));
+        }
+        #[kani::proof]
+        #[kani::unwind(5)]
+        #[kani::stub(alloc::alloc::alloc, crate::verif::common::stub_alloc)]
+        #[kani::stub(alloc::alloc::dealloc, crate::verif::common::stub_dealloc)]
+        #[kani::stub(alloc::alloc::realloc, crate::verif::common::stub_realloc)]
+        fn hist_c18_n4() { let _ = hist::<NoopLock, _>(&mut KaniSrc, 0, 4, P18); }
         macro_rules! hist_proof {
             ($name:ident, $lock:ty, $n:expr, $p:expr, $unw:expr) => {
                 #[kani::proof]
@@ -376,11 +399,15 @@ pub(crate) mod verif_timer {
                 }
             };
         }
+        hist_proof!(hist_c15_n3, NoopLock, 3, P15, 5);
+        hist_proof!(hist_c15_n4, NoopLock, 4, P15, 5);
         hist_proof!(hist_c15_n5, NoopLock, 5, P15, 7);
         hist_proof!(hist_c15_n6, NoopLock, 6, P15, 8);
         hist_proof!(hist_c15_n7, NoopLock, 7, P15, 9);
         hist_proof!(hist_c15_n5_check, CheckLock, 5, P15, 7);
+        hist_proof!(hist_c17_n4, NoopLock, 4, P17, 5);
         hist_proof!(hist_c17_n5, NoopLock, 5, P17, 7);
+        hist_proof!(hist_c01_n4, NoopLock, 4, P01, 5);
         hist_proof!(hist_c01_n5, NoopLock, 5, P01, 7);
         hist_proof!(hist_c01_n5_check, CheckLock, 5, P01, 7);
 
@@ -389,24 +416,26 @@ pub(crate) mod verif_timer {
         fn delay_full_range() { delay_check(&mut KaniSrc, P15); }
 
         macro_rules! step_proof {
-            ($name:ident, $lock:ty, $class:expr, $p:expr) => {
+            ($name:ident, $lock:ty, $class:expr, $k:expr, $p:expr) => {
                 #[kani::proof]
-                #[kani::unwind(7)]
-                fn $name() { step::run::<$lock>($class, $p) }
+                #[kani::unwind(6)]
+                fn $name() { step::run::<$lock>($class, $k, $p) }
             };
         }
-        step_proof!(step_c15_poll, NoopLock, 0, P15);
-        step_proof!(step_c15_drop, NoopLock, 1, P15);
-        step_proof!(step_c15_check, NoopLock, 2, P15);
-        step_proof!(step_c01_poll, NoopLock, 0, P01);
-        step_proof!(step_c01_drop, NoopLock, 1, P01);
-        step_proof!(step_c01_check, NoopLock, 2, P01);
-        step_proof!(step_c17, NoopLock, 3, P17);
+        step_proof!(step_c15_poll, NoopLock, 0, 4, P15);
+        step_proof!(step_c15_drop, NoopLock, 1, 4, P15);
+        step_proof!(step_c15_check_k3, NoopLock, 2, 3, P15);
+        step_proof!(step_c15_check, NoopLock, 2, 4, P15);
+        step_proof!(step_c01_poll, NoopLock, 0, 4, P01);
+        step_proof!(step_c01_drop, NoopLock, 1, 4, P01);
+        step_proof!(step_c01_check_k3, NoopLock, 2, 3, P01);
+        step_proof!(step_c01_check, NoopLock, 2, 4, P01);
+        step_proof!(step_c17, NoopLock, 3, 3, P17);
 
         #[kani::proof]
-        #[kani::unwind(8)]
-        fn witness_order_n6() {
-            let bits = hist::<NoopLock, _>(&mut KaniSrc, 0, 6, 0);
+        #[kani::unwind(5)]
+        fn witness_order_n4() {
+            let bits = hist::<NoopLock, _>(&mut KaniSrc, 0, 4, 0);
             assert!(bits & W_TWO_EXPIRE == 0, "WITNESS reached");
         }
     }
